@@ -32,6 +32,10 @@ var tmpls = []vlib.Tmpl{
 var uni = &vlib.Universe{Name: "getdata", Tmpls: tmpls}
 var palette = []string{"eth1", "eth10", "eth1/1"}
 
+// palettes: the key values of a case (index 0 = the default ones); separators and characters with a meaning in
+// paths: '/', ' ', '_', ':' (IPv6 / MAC addresses), brackets, '=', '*'
+var palettes = [][]string{{"eth1", "eth10", "eth1/1"}, {"x:y", "fe80::1", "y"}, {"a", "a b", "b a"}, {"a_b", "a", "b_a"}, {"[z]", "k=v", "c.d"}, {"a", "a/b", "b/a"}}
+
 type PathSel struct {
 	Leaf     vlib.LeafSel `json:"leaf"`
 	Up       int          `json:"up"`        // truncate this many elements from the leaf
@@ -44,6 +48,8 @@ type PathSel struct {
 }
 
 type Case struct {
+	// Pal: index into palettes
+	Pal int `json:"pal,omitempty"`
 	Running []vlib.LeafSel   `json:"running"`        // CONFIG / STATE content
 	Intents [][]vlib.LeafSel `json:"intents"`        // up to 2 owners' content (INTENDED)
 	Paths   []PathSel        `json:"paths"`          // empty = no path given
@@ -78,6 +84,7 @@ func twins(t *rapid.T, sels []vlib.LeafSel, label string) []vlib.LeafSel {
 
 func gen(t *rapid.T) *Case {
 	c := &Case{Running: twins(t, vlib.GenLeafSels(t, uni, 0, 10, "run"), "run")}
+	c.Pal = rapid.SampledFrom([]int{0, 0, 0, 1, 2, 3, 4, 5}).Draw(t, "palette")
 	ni := rapid.IntRange(0, 2).Draw(t, "nintents")
 	for i := 0; i < ni; i++ {
 		c.Intents = append(c.Intents, vlib.GenLeafSels(t, uni, 1, 6, "int"))
@@ -300,6 +307,7 @@ func dropKeyLeaves(c vlib.Conf) vlib.Conf {
 }
 
 func Exec(c *Case) (nontrivial bool, labels []string, fail *vlib.Failure) {
+	palette = palettes[c.Pal%len(palettes)]
 	ctx := context.Background()
 	env := vlib.MustEnv()
 	viaServer = c.ViaServer
